@@ -16,6 +16,11 @@ if [ "$nosuite" != "--no-suite" ]; then
   echo "== full suite on changed tree"; PYTHONPATH=$wt/src /venv/bin/python -m pytest -q -p no:cacheprovider -n 8 2>&1 | tail -1
 fi
 echo "== demo on changed tree"; PYTHONPATH=$wt/src /venv/bin/python $dir/demo.py 2>&1 | tail -3; echo "demo_changed_rc=${PIPESTATUS[0]}"
-cd /verif
+# run the check from a private copy of /verif (own lean/.lake) so that generated tables built from
+# the changed tree never leak into the build directory the other work uses
+sv=/var/tmp/seedverif
+mkdir -p $sv
+flock /verif/lean/.lake.lock rsync -a --delete --exclude .git --exclude replays --exclude seeded /verif/ $sv/
+cd $sv
 echo "== ./check $prop (quick) on changed tree"; WZ_REPO=$wt ./check $prop --tier quick 2>&1 | grep -E "VIOLATION|BROKEN|violation in|disagreement|no longer|status=" | head -12
 echo "check_rc=${PIPESTATUS[0]}"
